@@ -4,7 +4,7 @@ sys.path.insert(0, os.path.dirname(__file__))
 from _common import main, j2b, b2j
 import iso_common as R
 
-BOUND = 'each base message also under 3 re-orderings of the configuration keys and with bitmap bit 1 cleared; 15 base messages of text elements and their mutations: length digits replaced by sign, space, underscore, non-ASCII digits; lengths pointing before, at and past the end; declared lengths above configured maxima; bitmap bits added/removed; truncation and extension (about 1500 messages, quick) ; compared with a strict reference decoder'
+BOUND = 'hex-rendered bitmaps incl. fields with blanks, signs, underscores, 0x prefixes, newlines at 7 positions; each base message also under 3 re-orderings of the configuration keys and with bitmap bit 1 cleared; 15 base messages of text elements and their mutations: length digits replaced by sign, space, underscore, non-ASCII digits; lengths pointing before, at and past the end; declared lengths above configured maxima; bitmap bits added/removed; truncation and extension (about 1500 messages, quick) ; compared with a strict reference decoder'
 
 
 def reorder(cfg, how):
@@ -17,6 +17,33 @@ def reorder(cfg, how):
     elif how == 'rotated':
         keys = keys[len(keys) // 2:] + keys[:len(keys) // 2]
     return {k: cfg[k] for k in keys}
+
+
+def check_hex(raw, enc='latin_1'):
+    """hex bitmap rendering: accepted iff the strict reference reading (32 hex digits, then exact framing) accepts; same values"""
+    from cardutil.iso8583 import loads, Iso8583DataError
+    cfg = R.packaged()
+    try:
+        ref = R.ref_decode(raw, cfg, enc, hexb=True)
+    except R.Refuse as r:
+        ref = None
+        nondigit = (r.args[:1] == ('nondigit',))
+    try:
+        got = loads(raw, encoding=enc, hex_bitmap=True)
+    except Iso8583DataError:
+        got = None
+    field = raw[4:36]
+    is_hex = len(field) == 32 and all(chr(b) in '0123456789abcdefABCDEF' for b in field)
+    if got is not None and not is_hex:
+        return 'acceptance: message accepted although its bitmap field %r is not 32 hex digits' % field
+    if got is None:
+        return 'acceptance: well-framed hex-bitmap message rejected' if ref is not None else None
+    if ref is None:
+        return None if nondigit else 'framing: hex-bitmap message accepted that the strict reading refuses'
+    for k, v in ref.items():
+        if k != '__framing__' and got.get(k) != v:
+            return 'value: %s decoded as %r, its own bytes hold %r (hex bitmap)' % (k, got.get(k), v)
+    return None
 
 
 def check(raw, enc='latin_1', order=None):
@@ -74,6 +101,11 @@ def check(raw, enc='latin_1', order=None):
 
 def oracle(inp):
     inp = j2b(inp)
+    if inp.get('kind') == 'history':
+        import C02
+        return C02.check_history(inp)           # a configuration used before, then edited / copied / re-ordered: framing follows the configuration as it is NOW
+    if inp.get('kind') == 'rawhex':
+        return check_hex(inp['raw'])
     if inp.get('kind') == 'raw':
         return check(inp['raw'], order=inp.get('order'))
     if inp.get('kind') == 'framing' and isinstance(inp.get('data'), bytes):
@@ -104,6 +136,24 @@ def cases(tier, rng):
     bases.append(([31, 33], dumps({'MTI': '1144', 'DE31': 'a' * 23, 'DE33': 'abcd'})))
     bases.append(([2, 3], dumps({'MTI': '1144', 'DE2': '4444555566667777', 'DE3': '000000'})))
     bases.append(([3, 24, 71, 94], dumps({'MTI': '1144', 'DE3': '123456', 'DE24': '200', 'DE71': '00000001', 'DE94': 'abc'})))
+    import C02
+    for c in C02.cases('quick', rng):
+        if c.get('kind') != 'history':
+            break
+        yield c
+    # hex rendering of the bitmap: valid messages, and bitmap fields that int()/fromhex() tolerate but are not hex renderings
+    import binascii
+    for bs, raw in bases[:8]:
+        hx = raw[:4] + binascii.hexlify(raw[4:20]) + raw[20:]
+        yield {'kind': 'rawhex', 'raw': b2j(hx)}
+        yield {'kind': 'rawhex', 'raw': b2j(hx[:4] + hx[4:36].upper() + hx[36:])}
+        yield {'kind': 'rawhex', 'raw': b2j(hx[:-1])}
+        for pos in (0, 1, 2, 15, 16, 30, 31):
+            for ch in b' +-_xXgG\n\t:':
+                d = bytearray(hx); d[4 + pos] = ch
+                yield {'kind': 'rawhex', 'raw': b2j(bytes(d))}
+        for bad in (b' ' + hx[4:35], hx[5:36] + b' ', b'0x' + hx[6:36], b'+' + hx[5:36], hx[4:20] + b'_' + hx[21:36], hx[4:6] + b'  ' + hx[8:36], hx[4:34] + b'\n\n'):
+            yield {'kind': 'rawhex', 'raw': b2j(hx[:4] + bad + hx[36:])}
     for bs, raw in bases:
         yield {'kind': 'raw', 'raw': b2j(raw)}
         # the same message under the same configuration listed in another key order
